@@ -24,7 +24,7 @@ SPEC = {
         "engine previews use the canonical ZIP 317 fees (16 x 5000 per preparation transaction, 3 x 5000 buffer) on a regtest network with NU6.3 active",
     ],
     "tiers": {
-        "quick": {"shards": 8, "budget_s": 30},
+        "quick": {"shards": 8, "budget_s": 40},
         "thorough": {"shards": 16, "budget_s": 420},
     },
     "floors": {
@@ -39,6 +39,8 @@ SPEC = {
             "plans_oracle_8": 10_000, "plans_oracle_9": 10_000, "plans_oracle_10": 500, "plans_oracle_11": 10_000,
             "engine_previews_ok": 500, "engine_previews_truncated_by_wallet_shape": 5, "engine_unfundable_split": 1,
             "engine_nothing_to_migrate": 1, "engine_previews_with_direct_funding": 20,
+            "engine_wallets_where_preparation_costs_as_assumed": 200, "residual_bound_checked_other_oracles": 10_000,
+            "stored_parts_validations": 100_000,
             "build_profiles_exercised": 2,
         },
         "thorough": {
